@@ -1153,6 +1153,34 @@ def _r09f(chk, repo) -> None:
 _R09I_RECORDS: list = []
 
 
+def _r09j(chk, repo) -> None:
+    f = repo.fn(PY, "PythonTemplater.infer_type")
+    cfg = cfg_of(f)
+    params = [a.arg for a in f.args.args if a.arg not in ("self", "cls")]
+    if not params:
+        raise AnalysisError("R09j: infer_type has no parameter; re-confirm the anchor by hand")
+    p0 = params[0]
+    n = 0
+    for r in [r for r in walk_local(f) if isinstance(r, ast.Return)]:
+        n += 1
+        v = r.value
+        vals = [v]
+        if isinstance(v, ast.Name):
+            os_ = origins(cfg, v, r)
+            if os_ and all(o.kind == "param" and o.expr.arg == p0 for o in os_):
+                continue
+            vals = [o.expr for o in os_ if o.kind == "expr"] or [v]
+        ok = all(isinstance(x, ast.Call) and last_attr(x) == "literal_eval" and x.args and isinstance(x.args[0], ast.Name) and all(o.kind == "param" for o in origins(cfg, x.args[0], r)) for x in vals)
+        chk.require(
+            ok, "R09j", r,
+            f"infer_type returns `{short(v, 40) if v is not None else 'None'}`, which is neither ast.literal_eval(<value>) nor the value as given: a context string such as 'true' or 'none' then "
+            "renders as a converted object (`True`, `None`) instead of the text that was configured",
+            detail="infer_type: literal_eval result or the value itself",
+        )
+    chk.count("R09j.infer_type_returns", n)
+    chk.floor("R09j.infer_type_returns", 2)
+
+
 def _r09h(chk, repo) -> None:
     f = repo.fn("src/sqlfluff/core/templaters/base.py", "RawTemplater.get_context")
     cfg = cfg_of(f)
@@ -1268,6 +1296,8 @@ def run(chk) -> None:
     chk.rule("R09e", "python templater: the same unmodified in_str feeds slice_file, the raw slicer, the render function and TemplatedFile.source_str; templated_str is slice_file's render result")
 
     chk.rule("R09i", "a matched placeholder is recorded as template output, whatever its value: the slice records built for the span of a match (TemplatedFileSlice and RawFileSlice whose bounds are the match's span) carry the constant slice type 'templated'")
+    chk.rule("R09j", "a context value that is not a Python literal is used as it was given: PythonTemplater.infer_type returns ast.literal_eval(<value>) or the value itself, nothing else")
+    _r09j(chk, repo)
     chk.rule("R09h", "the templating context is layered default < config < override: RawTemplater.get_context puts self.default_context lowest, the section loaded from the config above it and self.override_context on top")
     _r09h(chk, repo)
     chk.rule("R09g", "the occurrence counter the python templater's slicer relies on (helpers.string.findall) reports every occurrence, overlapping ones included: after a hit at idx the search resumes at idx + 1")
@@ -1307,6 +1337,12 @@ from ..selftest import Variant  # noqa: E402
 HSTR = "src/sqlfluff/core/helpers/string.py"
 
 VARIANTS = [
+    Variant(
+        "infer-type-converts-config-words", PY,
+        "        except (SyntaxError, ValueError):\n            return s\n",
+        "        except (SyntaxError, ValueError):\n            if isinstance(s, str) and s.strip().lower() in (\"true\", \"false\"):\n                return s.strip().lower() == \"true\"\n            return s\n",
+        "R09j", "infer_type", "seeded C09-8: a context value 'true' renders as `True`",
+    ),
     Variant(
         "context-defaults-above-the-config", "src/sqlfluff/core/templaters/base.py",
         "        live_context.update(self.default_context)\n        live_context.update(loaded_context)\n",
